@@ -144,6 +144,28 @@ def _cases_core(rng, tier):
         for bad_s in common.edge_variants(good):
             yield "xk_parse %s 0 s %s" % ("P" if prv else "p", sx(bad_s)), "edge-character-parse"
             yield "wallet xkey:%s" % sx(bad_s), "edge-character-wallet"
+    # extremes of every field of the 78-byte layout, one at a time: parent fingerprint 00000000 / ffffffff on a DERIVED
+    # key (legal: 2^-32 of all parents), child number 0 / 2^32-1, depth 1 / 255, chain code all-zero / all-ff
+    for name in (["xpub", "xprv", "tpub", "vprv"] if tier == "quick" else list(ALL)):
+        prv = name.endswith("prv")
+        k = rand_scalar(rng)
+        key33 = (b"\x00" + k.to_bytes(32, "big")) if prv else pub_sec(k)
+        base = dict(depth=2, fp=b"\x11\x22\x33\x44", index=9, chain=bytes(range(32)))
+        for field, values in (("fp", [bytes(4), b"\xff" * 4, b"\x00\x00\x00\x01", b"\x01\x00\x00\x00"]),
+                              ("index", [0, 2 ** 32 - 1, 2 ** 31, 2 ** 31 - 1]), ("depth", [1, 255, 127, 128]),
+                              ("chain", [bytes(32), b"\xff" * 32])):
+            for v_ in values:
+                f_ = dict(base)
+                f_[field] = v_
+                pl = payload(ALL[name], f_["depth"], f_["fp"], f_["index"], f_["chain"], key33)
+                s_ = b58check_enc(pl)
+                cls = "P" if prv else "p"
+                yield "xk_parse %s 0 s %s" % (cls, sx(s_)), "field-extreme-parse-" + field
+                yield "xk_parse %s 0 b %s" % (cls, hx(pl)), "field-extreme-parse-" + field
+                yield "wallet xkey:%s" % sx(s_), "field-extreme-wallet-" + field
+                spec = "%s:%s:%s:%d:%d:%s:%s" % (cls, hx(key33 if not prv else k.to_bytes(32, "big")), hx(f_["chain"]),
+                                                  f_["depth"], f_["index"], "1" if name in VERS_TEST else "0", hx(f_["fp"]))
+                yield "xk_ser %s - %s %d" % (spec, "prv" if prv else "pub", ALL[name]), "field-extreme-ser-" + field
     # extended keys whose Base58Check TEXT has an interior, aligned block of the zero digit '1' (the chain code is
     # solved for it, common.solve_zero_block): block-wise / padded encoders lose or invent such digits
     for name in (["xpub", "tprv", "zpub"] if tier == "quick" else list(ALL)):
